@@ -98,6 +98,10 @@ FIXED = [
     line(16, req=100000, resp=100000, sop="vanish", vanish_us=2500),
     line(17, req=1000, resp=1 << 20, sop="vanish", vanish_us=4000, cop="concurrent"),
     line(18, req=1000, resp=1000, sop="vanish", vanish_us=300),
+    # the repo's idle_timeout::server_no_response: the request is delivered and acknowledged, no answer ever comes;
+    # only the client's receiver idle timer (armed when the stream is created) can end the stream
+    line(28, req=4, resp=1000, sop="stall"),
+    line(29, req=100000, resp=1000, sop="stall", drop=100, dup=50, reorder=100, faults_ms=200),
     # TCP
     line(19, proto="tcp", req=100000, resp=100000),
     line(20, proto="tcp", req=1, resp=1 << 20, wchunk=1000, rchunk=100, mtu=1250),
@@ -138,10 +142,10 @@ def _random(rng, tier):
     if rng.random() < 0.25:
         smtu = rng.choice(MTUS)
     cop = rng.choices(["normal", "shutdown_early", "drop_early", "concurrent"], [5, 2, 1, 2])[0]
-    sop = rng.choices(["normal", "write_first", "drop_early", "vanish", "forget_secret"], [5, 2, 1, 1, 1])[0]
+    sop = rng.choices(["normal", "write_first", "drop_early", "stall", "vanish", "forget_secret"], [10, 4, 2, 1, 2, 2])[0]
     kw = dict(proto=proto, req=req, resp=resp, wchunk=wchunk, rchunk=rchunk, mtu=mtu, smtu=smtu, cop=cop, sop=sop)
     if proto == "tcp":
-        if sop == "vanish":
+        if sop in ("vanish", "stall"):
             kw["sop"] = "normal"
         kw["deadline_ms"] = 30000
         return line(seed, **kw)
@@ -162,6 +166,7 @@ def gen(rng, n, tier):
     if tier == "thorough":
         # one real-time TCP stall: the peer application freezes while holding the stream
         ops.append(line(rng.getrandbits(32), proto="tcp", req=1000, resp=1000, sop="vanish", deadline_ms=45000))
+        ops.append(line(rng.getrandbits(32), proto="tcp", req=100000, resp=1000, sop="stall", deadline_ms=45000))
     return ops[:max(n, len(FIXED))] if tier != "thorough" else ops
 
 
@@ -233,11 +238,12 @@ def oracle(ops, outs):
         if o["end"] != "done":
             bad.append((i, "dcstream:hang", f"no result before the deadline of {p['deadline_ms']} ms (cerr={o['cerr']} serr={o['serr']})"))
             continue
-        faulty_peer = sop in ("vanish", "forget_secret")
+        faulty_peer = sop in ("vanish", "forget_secret", "stall")
         if faulty_peer:
             idle = int(p["idle_ms"])
-            t0 = (int(p.get("vanish_us", 0)) + 999) // 1000
-            for side in ("tc", "ts"):
+            # stall: the timer runs from the last peer activity (the ACKs of the request): 1 s of margin for it
+            t0 = (int(p.get("vanish_us", 0)) + 999) // 1000 + (1000 if sop == "stall" else 0)
+            for side in (("tc",) if sop == "stall" else ("tc", "ts")):
                 if o[side] != "-" and int(o[side]) > t0 + idle + SLACK_MS:
                     bad.append((i, "dcstream:error-late", f"{side}={o[side]} ms > {t0} + idle {idle} + slack {SLACK_MS} ms"))
             if o.get("late") == "1":
@@ -247,6 +253,9 @@ def oracle(ops, outs):
                 bad.append((i, "dcstream:wrong-data-instead-of-error",
                             f"client saw a clean EOF after {s2c['r']} of {resp} response bytes although the peer had {sop}"))
             # (a client that drops the stream right after writing never looks at the outcome)
+            if sop == "stall" and cop != "drop_early" and s2c["eof"] != "err":
+                bad.append((i, "dcstream:wrong-data-instead-of-error",
+                            f"the peer never answered, yet the client's read did not fail (eof={s2c['eof']}, {s2c['r']} bytes)"))
             if sop == "forget_secret" and cop != "drop_early" and s2c["eof"] != "err" and o["cerr"] == "-":
                 bad.append((i, "dcstream:wrong-data-instead-of-error", "unknown path secret: the client saw no error at all"))
         elif cop in ("normal", "shutdown_early", "concurrent") and sop in ("normal", "write_first"):
